@@ -246,7 +246,8 @@ def history(k, p, sub=False, psub=False, **kw):
 
 # ----------------------------------------------------------------------------- additivity
 AOPS = ["export", "discobrackets", "tigerxml", "terminals", "pipeline", "binarize", "gapdegree", "grammar", "markov", "transitions",
-        "inorder", "topdown"]
+        "inorder", "topdown", "eager-topnode", "eager-binarize", "eager-split"]
+# eager-*: all trees are read into a list first (library use), then transformed and written one after the other
 
 
 def _run_a(a, sents, tag):
@@ -302,6 +303,21 @@ def _run_a(a, sents, tag):
                                                     transformparams=[], src_format="export", src_enc="utf-8", src_opts=["quiet"],
                                                     dest_format="plain", dest_enc="utf-8", dest_opts=[], verbose=False))
         return ("text", stubs.get(d))
+    if a in (12, 13, 14):
+        from trees import treeoutput
+        tl = list(treeinput.export("c.export", "utf-8", quiet=True))
+        sink = stubs.Sink()
+        trans, fmt, opts = [(["add_topnode"], "export", {}),
+                            (["negra_mark_heads", "binarize"], "discobrackets", {"mark_heads_marking": True}),
+                            (["negra_mark_heads", "boyd_split"], "export", {"boyd_split_marking": True})][a - 12]
+        for t in tl:
+            for name in trans:
+                t = getattr(transform, name)(t)
+            getattr(treeoutput, fmt)(t, sink, **opts)
+        items, prob = decode_file(fmt, sink.text())
+        if prob:
+            raise ValueError("%s output does not decode: %s" % (fmt, prob))
+        return ("text", items)
     raise ValueError(a)
 
 
